@@ -21,8 +21,8 @@ Definition mol_v2 : wiring :=
     [AElement; AIsotope; ALabel; AAtype; AStereo; AGeom; AFCharge; AFSpin; AAttrib]
     [BA1; BA2; BLabel; BBtype; BStereo; BFOrder; BAttrib]
     [BA1; BA2; BLabel; BBtype; BStereo; BFOrder; BAttrib]
-    [(OCharges, F4BE); (OCoords, F4BE)]
-    [(OCharges, F4BE); (OCoords, F4BE)]
+    [(OCharges, F4BE); (OCoords, F2BE)]
+    [(OCharges, F4BE); (OCoords, F2BE)]
     gen_adflt gen_bdflt.
 
 Definition ens_v2 : wiring :=
@@ -67,4 +67,3 @@ Definition wiring_of (c : codec) : wiring :=
 (* correspondence check of one stored object: (codec, object written, what was read back) *)
 Definition check_case (c : codec * obj * outcome) : bool :=
   let '(k, i, s) := c in check_with (wiring_of k) i s.
-
